@@ -147,9 +147,9 @@ fn run_set<S: PS>(ctx: &Ctx) -> Acc {
             }
             coeff += stride;
         }
-        for sp in [SPat::AllMinus, SPat::AllPlus, SPat::Alternating, SPat::Zero, SPat::Random] {
-            for tp in [T0Pat::AllTop, T0Pat::AllBottom, T0Pat::RandomExtremes, T0Pat::Random, T0Pat::Zero] {
-                if (poly + sp as usize + tp as usize) % 3 == 0 || ctx.thorough() {
+        for (si, sp) in [SPat::AllMinus, SPat::AllPlus, SPat::Alternating, SPat::Zero, SPat::Random].into_iter().enumerate() {
+            for (ti, tp) in [T0Pat::AllTop, T0Pat::AllBottom, T0Pat::RandomExtremes, T0Pat::Random, T0Pat::Zero].into_iter().enumerate() {
+                if (poly + si + ti) % 3 == 0 || ctx.thorough() {
                     let sk = gen::hostile_sk(&mut g, p, sp, tp);
                     must_accept::<S>(&mut a, &format!("pattern-{sp:?}-{tp:?}"), &sk);
                 }
